@@ -61,6 +61,7 @@ REQUIRED = ["Xmp.MixLinear." + n for n in (
 
 HARNESS = ("c14_mixlinear", ["c14_mixlinear.c"])
 NNA_WITNESSES = ["it_note_delay_nna.it"]      # F6 witness of DESIGN.md section 5, always in the silence set
+A500_SOLOSUM_WITNESSES = ["Mexx-BitBlaster-1.TrackerPacker2"]   # Paula state survives voice-slot reuse (found by this check)
 PAULA_WITNESSES = ["NP2.Multica"]             # Paula kernel read past the sample end at 4000 Hz (found by this check)
 
 
@@ -237,7 +238,7 @@ def run(ck):
                     bump("oracle_fail_" + sig)
                     # at most 3 replay files per kind of failure; the rest is counted
                     if stats["oracle_fail_" + sig] <= 3:
-                        ck.violation(sig if sig.endswith(":nna") else sig + ":" + os.path.basename(path),
+                        ck.violation(sig if sig.endswith((":nna", ":a500")) else sig + ":" + os.path.basename(path),
                                      replay_obj(mode, seed, nfr, path, line, env),
                                      "C14 oracle (%s) failed on the real code: %s" % (mode, line[:400]))
                 elif line.startswith(statname + " "):
